@@ -15,6 +15,7 @@ import CssVerif.Driver.ImportOps
 import CssVerif.Driver.LinkOps
 import CssVerif.Driver.OwnOps
 import CssVerif.Driver.ResolveOps
+import CssVerif.Driver.OmitOps
 import CssVerif.Driver.UrlOps
 import CssVerif.Driver.EscOps
 import CssVerif.Driver.ValueOps
@@ -68,6 +69,7 @@ def step (line : String) : String :=
   | ["tree", fx, n, hist] => LinkOps.run fx n hist
   | ["own", roots, hist] => OwnOps.run roots hist
   | ["resolve", sh] => ResolveOps.opResolve sh
+  | ["omit", bits, sheet] => OmitOps.opOmit bits sheet
   | ["urlrt", u] => UrlOps.opUrlRt u
   | ["urltrav", t] => UrlOps.opUrlTrav t
   | ["escall", e, t] => EscOps.opEscAll e t
